@@ -13,7 +13,14 @@ package dawn
 // Oracle (the statement, per label and per stream of every process): every delivered line is the NEXT line of the stream it
 // belongs to -- intact, once, in that stream's order --, every stream is delivered completely, the streams of one process
 // follow those of the process the body ran before it, and everything lies between the label's evaluating event and its one
-// completion event.  Coq side: Output/Producers.v (one_channel_each_stream_in_order, separate_copiers_refuted).
+// completion event.  Two more oracles say WHAT went wrong when that fails: byte conservation (standard-output lines are
+// written in [a-z0-9.], standard-error lines in [A-Z:]: the delivered bytes of each alphabet are exactly the bytes written
+// by the producers of that kind, in order, no other byte, as many lines as newlines) and "one delivery at a time" (Events.Print
+// for a label is never entered while another Print for that label has not returned -- what an unsynchronised writer shows).
+// A failure is of class "shell-glued" only when the body is ONE shell command with two processes running at the same time
+// (pipeline, background job), conservation and one-at-a-time hold and nothing else is wrong; every other failure -- any
+// failure of os.exec, of a single command, of alternating or consecutive producers -- is of class "process".
+// Coq side: Output/Props_C18.v (one_channel_each_stream_in_order, separate_copiers_refuted, writer_per_copier_delivers_its_stream).
 //
 // Every scenario runs in a process of its own (a torn line buffer can crash the process); a crash or a hang is an outcome.
 
@@ -845,12 +852,9 @@ func TestVerifC18Procout(t *testing.T) {
 			}
 		}
 		for _, o := range v.res.Oracles {
-			kind, text := o, o
+			text := o
 			if i := strings.IndexByte(o, '|'); i >= 0 {
-				kind, text = o[:i], o[i+1:]
-			}
-			if class == "process" && kind == "glued" && len(v.res.Oracles) > 1 && false {
-				continue
+				text = o[i+1:]
 			}
 			fmt.Fprintf(w, "ORACLE\t%s\tC18 output of processes, scenario %q: %s\t%s\n", class, v.sc.Name, text, js)
 		}
